@@ -6,8 +6,8 @@ the single-edit backend family), each an AST-API edit on any side and on any cla
   hist, hist_cc       the six original edit kinds (add/remove symbol, equation, class; fresh payload nodes)
   hist_w, hist_cc_w   the same, but every tree is flattened BEFORE it is deep-copied and before the first edit
                       (whatever pymoca caches inside a tree while flattening is then copied / edited under)
-  hist_x, hist_cc_x   at least one edit of the further kinds: add/remove initial equation, and add_class /
-                      add_symbol whose payload was TAKEN FROM A TREE (find_class() copy or copy.deepcopy of a class
+  hist_x, hist_cc_x   at least one edit of the further kinds: add/remove initial equation, Tree.extend with a freshly
+                      parsed file, and add_class / add_symbol whose payload was TAKEN FROM A TREE (find_class() copy or copy.deepcopy of a class
                       or symbol of the next tree or of the same tree - such copies still point to the parent they
                       were copied under)
   hist_be, hist_cc_be observed through the SymPy and XML backends (which deep-copy the tree themselves) instead of
@@ -35,7 +35,7 @@ SIDES = ["original", "copy", "copy-of-copy"]
 # enumeration id -> (k1 range, k2 range, constraint on (k1, k2) or None, number of (k1, k2) pairs)
 ENUMS = {
     "base": ((0, 5), (0, 5), None, 36),
-    "new": ((0, 11), (0, 11), "new", 144 - 36),   # at least one edit of a kind >= 6
+    "new": ((0, 12), (0, 12), "new", 169 - 36),   # at least one edit of a kind >= 6
     "one": ((0, 7), (-1, -1), None, 8),           # a single edit (plain kinds)
     "two": ((0, 7), (0, 7), None, 64),
 }
@@ -126,8 +126,8 @@ def main():
                  ("redecl", "hist_w", "base"), ("imports", "hist_w", "base"),
                  ("comp", "hist_cc_w", "base"), ("imp", "hist_cc_w", "base"), ("assembled", "hist_cc_w", "base"),
                  ("comp", "hist_x", "new"), ("conn", "hist_x", "new"), ("alias", "hist_x", "new"), ("imp", "hist_x", "new"),
-                 ("redecl", "hist_x", "new"), ("comp", "hist_cc_x", "new"), ("assembled", "hist_cc_x", "new"),
-                 ("comp", "hist_be", "two"), ("assembled", "hist_be", "two"), ("imp", "hist_be", "two"),
+                 ("assembled", "hist_cc_x", "new"),
+                 ("comp", "hist_be", "two"), ("imp", "hist_be", "two"),
                  ("redecl", "hist_be", "one"), ("func", "hist_be", "one"),
                  ("comp", "hist_cc_be", "one"), ("imp", "hist_cc_be", "one"), ("assembled", "hist_cc_be", "one")]
     items = []
@@ -165,9 +165,9 @@ def main():
                                 "(real code, executed concretely on every history of the bounded space)"]
     cov["bounds"] = ("one deepcopy (hist_cc*: copy of a copy with an edit in between) followed by 2 edits (family 'one': 1 edit) x any side x any class of the library; "
                      "after each edit every class of every tree (and every place an edit can put a class) is observed and compared with the oracle. "
-                     "Families: base = 6 kinds (add/remove symbol, equation, class with fresh payload nodes); new = 12 kinds with at least one of add/remove initial "
+                     "Families: base = 6 kinds (add/remove symbol, equation, class with fresh payload nodes); new = 13 kinds with at least one of add/remove initial "
                      "equation, add_class(find_class copy from the next tree, same place), add_class(find_class copy from the same tree, into a new package next to it), "
-                     "add_class(deepcopy of the next tree's class, into a new package), add_symbol(deepcopy of the next tree's symbol with its modifications); "
+                     "add_class(deepcopy of the next tree's class, into a new package), add_symbol(deepcopy of the next tree's symbol with its modifications), Tree.extend(freshly parsed file that adds a class to the same package); "
                      "one/two = 8 fresh-payload kinds, 1 or 2 edits. Functions: hist/hist_cc observe by tree.flatten; *_w additionally flatten every class of every "
                      "tree before each deepcopy and before the first edit; *_x = family new; *_be observe through the SymPy and XML backends (generate before the "
                      "deepcopy, after it and after each edit). Library 'imp': unqualified import in the enclosing package, renaming and single-class import in the "
